@@ -292,8 +292,9 @@ def arbStartAfterStart (_rec : Rec) (rest : List Nat) (wt : Waiter) : M Unit := 
   awaitSleep a.warmup (.arbStartAfterSleep rest) wt
 
 def arbStopTail (rec : Rec) (wt : Waiter) : M Unit := do
-  -- loop.add_callback(stop_controller_and_close_sockets): queued before the future's own callbacks
-  enqueue .closeCtl
+  -- loop.add_callback(self.loop.stop): the loop finishes the callbacks already queued (the
+  -- future's own ones: release, reply), returns, and Arbiter.start() then closes the sockets
+  modA fun a => { a with loopStop := true }
   deliver rec wt .unit
 
 def arbStop (rec : Rec) (wt : Waiter) : M Unit := do
@@ -403,12 +404,6 @@ def runResume (rec : Rec) (k : Kont) (v : Val) (wt : Waiter) : M Unit :=
   | .quitAfterStop, _ => arbStopTail rec wt
   | .ignore, _ => deliver rec wt .unit
 
-/-- one entry of the ready queue -/
-def runReady1 (rec : Rec) : Ready → M Unit
-  | .resume k v w => rec (.resume k v w)
-  | .topCb cb v => runTopCb v cb
-  | .closeCtl => stopController
-
 /-- the interpreter: `fuel` bounds the number of nested task activations -/
 def exec : Nat → Task → M Unit
   | 0, _ => emit .outOfFuel
@@ -420,18 +415,3 @@ def exec : Nat → Task → M Unit
 
 end Circus.Core
 
-namespace Circus.Core
-
-/-- run the event loop until its ready queue is empty (`settle`) -/
-def settle : Nat → M Unit
-  | 0 => emit .outOfFuel
-  | fuel + 1 => fun s =>
-    if s.blocked then ((), s) else
-    match s.ready with
-    | [] => ((), s)
-    | r :: rest =>
-      let s1 := { s with ready := rest }
-      let (_, s2) := runReady1 (exec 100000) r s1
-      settle fuel s2
-
-end Circus.Core
